@@ -913,9 +913,10 @@ fn sink_main(plan: &J, hist: History) {
     let kind = js(plan, "kind", "immediate").to_string();
     let nthreads = ju(plan, "threads", 1).max(1);
     let per = ju(plan, "per_thread", 4);
+    let overlap = jb(plan, "overlapping_appends", false);
     let mk_stream = |no: u32, key: &str, yields: bool| {
         let (mut s, _ctl) = RecStream::new(no, hist.clone(), -1);
-        s.yields = yields;
+        s.yields = yields || overlap;
         for sc in ja(plan, key) {
             if let Some(a) = sc.as_array() {
                 if a.len() == 3 {
@@ -1257,6 +1258,11 @@ impl Scenario for SinkFaults {
             "reentrant_subscriber": mix(ju(&sched, "seed", 0), 0x5ab) % 4 == 0,
             // what sits between the sink and the tee: nothing (half), merge_globals, merge_global_dimensions, both
             "adapter": (mix(ju(&sched, "seed", 0), 0xada) % 6).saturating_sub(2),
+            // immediate sinks, a few runs: the device is slow *inside* `next` / `flush` (scheduling points there), so a
+            // second thread arrives at the sink while the first is in the middle of its entry. The sink's lock is a real
+            // one: the thread that waits for it is found asleep by the simulator's monitor and the run goes on without
+            // it until the lock is released (real milliseconds per overlap, hence few runs)
+            "overlapping_appends": threads >= 2 && mix(ju(&sched, "seed", 0), 0x0e71) % 40 == 0,
         })
     }
     fn run(&self, plan: &J) -> Report {
@@ -1264,7 +1270,12 @@ impl Scenario for SinkFaults {
         let hist = History::new();
         let h2 = hist.clone();
         let p2 = plan.clone();
+        let overlap = jb(plan, "overlapping_appends", false) && js(plan, "kind", "") != "queue_tee";
+        if overlap {
+            detsim::set_foreign_block_patience_ms(40);
+        }
         let (out, _) = detsim::run(sched, move || sink_main(&p2, h2));
+        detsim::set_foreign_block_patience_ms(300);
         let h = hist.snapshot();
         let mut r = Report::default();
         r.nontrivial = out.threads >= 2 && out.preemptions >= 1;
@@ -1281,6 +1292,9 @@ impl Scenario for SinkFaults {
             }
         }
         r.probe(&format!("kind_{}", js(plan, "kind", "")), 1);
+        if overlap {
+            r.fault("thread_arrives_at_the_immediate_sink_while_another_is_inside_it", r.outcome.foreign_blocks);
+        }
         r.states = vec![mix(detsim::rng::hash_str(js(plan, "kind", "")), h.len() as u64 / 8)];
         if !matches!(failure, Some(detsim::Failure::StepLimit { .. })) {
             r.violation = check_sink_faults(plan, &h);
